@@ -1,7 +1,7 @@
 (* C01 -- notebook diff followed by patch reproduces the target notebook. *)
 From Coq Require Import List NArith.
 From NB Require Import Base.Res Base.Json Base.PyStr Diff.DiffFormat Diff.Patch Diff.GenericDiff Diff.Wf
-     Diff.StringProofs Diff.StringMaster Diff.NbProofs Diff.C01Proofs Gen.NbConfig.
+     Diff.StringProofs Diff.StringMaster Diff.NbProofs Diff.NbTotal Diff.C01Proofs Gen.NbConfig.
 Import ListNotations.
 
 (* cell sources (and every other string): line diff + flattened patch reproduce the target *)
@@ -32,3 +32,21 @@ Print Assumptions notebook_diff_patch_roundtrip.
 Theorem notebook_tables_admissible : cfg_ok nb_config = true.
 Proof. exact nb_config_ok. Qed.
 Print Assumptions notebook_tables_admissible.
+
+(* and on notebook-SHAPED documents (cells a list of objects with string sources, outputs objects with a
+   string output_type and, for display_data / execute_result, an object data bundle, attachments an object
+   of objects; everything else arbitrary JSON) the differ DOES return, whatever the heuristics answer, given
+   the fuel the API gives it: no assert, KeyError, IndexError or RuntimeError path is reachable -- and the
+   diff is right.  cfg_tot (no predicate keys, non-empty predicate lists, output predicates test the output
+   type first, single-outputs / attachments differs only at their paths, mime recursion guarded) is
+   recomputed on the regenerated tables. *)
+Theorem notebook_diff_total_and_correct : forall O n a b,
+  opcodes_valid O -> wfj a = true -> wfj b = true -> sources_are_strings a = true ->
+  notebook_shaped a = true -> notebook_shaped b = true -> 4 * depth a + 4 <= n ->
+  exists d, diff_ O nb_config n [] a b = Ok d
+            /\ (forall m, depth a < m -> patch m a d = Ok b)
+            /\ (forall f, depth a < f -> wf_diff f a d = true)
+            /\ (forall f, depth a < f -> check_diff f a b d = true)
+            /\ (d = [] -> a = b).
+Proof. exact nb_total. Qed.
+Print Assumptions notebook_diff_total_and_correct.
